@@ -51,7 +51,14 @@ func (g *gen) chance(pct int, label string) bool {
 	return hx.Chance(g.rt, pct, label)
 }
 
+// derived names: a sibling whose name is another pool name plus a typical temporary-file
+// decoration; implementations that stage writes in "<name>.tmp"-like files collide with them.
+var derivedSuffixes = []string{".tmp", "~", ".bak", ".part", ".lock", ".new", ".swp", ".orig"}
+
 func (g *gen) name() string {
+	if hx.Uniform(g.rt, 100, "derived") >= 93 {
+		return namePool[g.intn(len(namePool), "dname")] + derivedSuffixes[g.intn(len(derivedSuffixes), "dsuf")]
+	}
 	if g.cfg.OddNames && hx.Uniform(g.rt, 100, "odd") >= 94 {
 		return oddPool[g.intn(len(oddPool), "oddi")]
 	}
